@@ -219,6 +219,37 @@ def vecNthFixedP (f : Bytes → Out CqlVal) (size remaining n : Nat) (bs : Bytes
       else vecNextFixedP f size (remaining - n) rest
   else vecNextFixedP f size remaining bs
 
+/-- `VectorIterator::next_variable_length_elem`: one item (or `None` when exhausted), the new `remaining`, the slice.
+A failing `unsigned_vint_decode` leaves the slice EMPTY (`read_u8` / `read_exact` on `&[u8]` consume what is there);
+a failing or null `read_n_bytes` leaves it after the length prefix. -/
+def vecNextVarP (f : Bytes → Out CqlVal) (remaining : Nat) (bs : Bytes) :
+    Out (Option (Except DeErr CqlVal) × Nat × Bytes) :=
+  if remaining = 0 then .ok (none, 0, bs)
+  else match uvintDecP bs with
+    | .panic s => .panic s
+    | .err e => .ok (some (.error e), remaining - 1, [])
+    | .ok (size, r0) =>
+      match readNP size.toNat r0 with
+      | .panic s => .panic s
+      | .err e => .ok (some (.error e), remaining - 1, r0)
+      | .ok (none, rest) => .ok (some (.error .expectedNonNull), remaining - 1, rest)
+      | .ok (some b, rest) =>
+        match f b with
+        | .panic s => .panic s
+        | .err e => .ok (some (.error e), remaining - 1, rest)
+        | .ok v => .ok (some (.ok v), remaining - 1, rest)
+
+/-- `VectorIterator::nth(n)` on variable-size elements (`value.rs:1369-1374`): `n` items are pulled and discarded
+(Ok or Err alike; exhaustion ends with `None`), then one more is returned. -/
+def vecNthVarP (f : Bytes → Out CqlVal) : Nat → Nat → Bytes → Out (Option (Except DeErr CqlVal) × Nat × Bytes)
+  | 0, remaining, bs => vecNextVarP f remaining bs
+  | n + 1, remaining, bs =>
+    match vecNextVarP f remaining bs with
+    | .panic s => .panic s
+    | .err e => .err e
+    | .ok (none, r, b) => .ok (none, r, b)
+    | .ok (some _, r, b) => vecNthVarP f n r b
+
 /-- `VectorIterator::size_hint` / `ExactSizeIterator::len` (`assert_eq!(upper, Some(lower))` in `len`). -/
 def vecSizeHintP (remaining : Nat) : Out (Nat × Option Nat) :=
   let hint := (remaining, some remaining)
